@@ -52,8 +52,9 @@ class FakeRaw:
         if f is None or self.dead:
             return None
         idx = self.shim.ops - 1
-        if idx == f["at"]:
-            return f[op]          # fault = {"at": k, "send": kind, "recv": kind}
+        for one in (f if isinstance(f, list) else [f]):   # fault = {"at": k, "send": kind, "recv": kind} or a list of them
+            if idx == one["at"]:
+                return one[op]
         return None
 
     def _die(self):
@@ -75,6 +76,7 @@ class FakeRaw:
         kind = self._fault_now("recv")
         if kind is not None:
             self.shim.fault_fired = True
+            self.shim.faults_fired += 1
             self._die()
             if kind == "close":
                 self.shim.dead_mode = "eof"
@@ -119,6 +121,7 @@ class FakeRaw:
         kind = self._fault_now("send")
         if kind is not None:
             self.shim.fault_fired = True
+            self.shim.faults_fired += 1
             self._die()
             if kind == "zero":
                 self.shim.dead_mode = "zero"
@@ -172,6 +175,7 @@ class SocketShim:
         self.chunk_i = 0
         self.fault = fault
         self.fault_fired = False
+        self.faults_fired = 0
         self.ops = 0
         self.op_kinds = []
         self.raw = None
